@@ -43,6 +43,7 @@ def parse_overlay(path):
         elif sec[0] == "closure_ghost": cur["closure_ghosts"][sec[1]] = text
         elif sec[0] == "closure_let": cur["closure_lets"][sec[1]] = text
         elif sec[0] == "raw": cur["raw"] = text
+        elif sec[0] == "hint": cur["hints"].append((sec[1], sec[2], text))
         buf = []
     defs = {}
     pending = []
@@ -76,7 +77,7 @@ def parse_overlay(path):
             w = ln[3:].split()
             if not w: sec = None; continue
             if w[0] == "item":
-                cur = {"id": w[1], "of": w[1], "header": "", "prologue": "", "epilogue": "", "loops": {}, "closures": {}, "closure_ghosts": {}, "closure_lets": {}, "guard": None, "raw": None}
+                cur = {"id": w[1], "of": w[1], "header": "", "prologue": "", "epilogue": "", "loops": {}, "closures": {}, "closure_ghosts": {}, "closure_lets": {}, "guard": None, "raw": None, "hints": []}
                 if len(w) >= 4 and w[2] == "of": cur["of"] = w[3]
                 items[w[1]] = cur; order.append(w[1]); sec = None
             elif w[0] in ("header", "prologue", "epilogue", "raw"):
@@ -92,6 +93,15 @@ def parse_overlay(path):
                 sec = ("closure_ghost", int(w[1]))
             elif w[0] == "closure_let":
                 sec = ("closure_let", int(w[1]))
+            elif w[0] == "hint":
+                # //@ hint [n] after `code`  : ghost lines placed right behind the n-th occurrence of the (extracted) code text
+                rest = ln[3:].split(None, 1)[1]
+                n = 0
+                if rest.split()[0].isdigit():
+                    n = int(rest.split()[0]); rest = rest.split(None, 1)[1]
+                if not rest.startswith("after `") or not rest.rstrip().endswith("`"):
+                    raise ExtractError("overlay %s: bad hint marker %r" % (path, ln))
+                sec = ("hint", n, rest.rstrip()[7:-1])
             elif w[0] == "guard":
                 cur["guard"] = " ".join(w[1:]); sec = None
             elif w[0] == "end":
@@ -233,6 +243,15 @@ def extract(unit, ex):
                     info["rules"]["R3.drop_derive"] = info["rules"].get("R3.drop_derive", 0) + 1
                     break
                 k += 1
+        if ex.get("add_derive"):
+            # the stand-in field types are Copy (e.g. PathBuf -> PathS): `x.clone()` in the source is a copy of the abstract value
+            for k in range(len(frag)):
+                if frag[k].s == "derive":
+                    close = k + 1
+                    while frag[close].s != ")": close += 1
+                    frag[close:close] = T(", " + ", ".join(ex["add_derive"]))
+                    info["rules"]["R3.add_derive"] = 1
+                    break
     elif kind == "fn":
         lo, hi = 0, len(toks)
         if ex.get("impl"):
@@ -352,6 +371,18 @@ def extract(unit, ex):
     return frag, info
 
 # ------------------------------------------------------------------------------------------------
+def splice_hints(frag, ov, info):
+    """ghost statements of the overlay placed behind an anchor in the extracted code (the anchor must be present: a lost anchor is exit 2)"""
+    ins = []
+    for n, anchor, text in ov.get("hints", []):
+        pat = T(anchor)
+        hits = [i for i in range(len(frag) - len(pat) + 1) if all(frag[i + j].s == pat[j].s for j in range(len(pat)))]
+        if n >= len(hits): raise ExtractError("item %s: hint anchor %r occurrence %d not found (%d present)" % (ov["id"], anchor, n, len(hits)))
+        ins.append((hits[n] + len(pat), [Tok("raw", "\n" + text + "\n", None, 0, True)]))
+    for pos, new in sorted(ins, key=lambda x: -x[0]):
+        frag[pos:pos] = new
+    return frag
+
 def splice_loops(frag, ov, info):
     """insert loop invariants of the overlay; loops are numbered in token order within the fragment"""
     if not ov["loops"]: return frag
@@ -362,6 +393,38 @@ def splice_loops(frag, ov, info):
         if k >= len(ls): raise ExtractError("item %s: overlay names loop %d but the body has %d loops" % (ov["id"], k, len(ls)))
         kw, o, c = ls[k]
         # lines before the first `invariant`/`decreases` line are ghost statements placed in front of the loop
+        # `body_start:` / `body_end:` sections: ghost statements at the head (behind the R16 `let PAT = match it.vx_next() {..};` if there is
+        # one) and at the end of the loop body
+        for marker in ("body_end:", "body_start:"):
+            if "\n" + marker + "\n" in "\n" + text + "\n":
+                text, sect = ("\n" + text + "\n").split("\n" + marker + "\n", 1)
+                text = text.strip("\n")
+                # the section runs to the next marker line
+                rest = ""
+                for mk2 in ("after:", "body_end:", "body_start:"):
+                    if "\n" + mk2 + "\n" in "\n" + sect:
+                        sect, r2 = ("\n" + sect).split("\n" + mk2 + "\n", 1)
+                        rest = "\n" + mk2 + "\n" + r2 + rest
+                text = text + rest
+                sect = sect.strip()
+                if marker == "body_end:":
+                    ins.append((c, [Tok("raw", "\n" + sect + "\n", None, 0, True)]))
+                else:
+                    at = o + 1
+                    if frag[at].s == "let":
+                        j = at
+                        while j < c and frag[j].s != ";" and frag[j].s != "match": j += 1
+                        if frag[j].s == "match" and frag[j + 1].s.startswith("vx_it") and frag[j + 3].s == "vx_next":
+                            while frag[j].s != "{": j += 1
+                            at = m[j] + 2
+                    ins.append((at, [Tok("raw", "\n" + sect + "\n", None, 0, True)]))
+        post = None
+        if "\nafter:\n" in "\n" + text + "\n":
+            # lines after a line `after:` are ghost statements placed right behind the loop
+            text, post = ("\n" + text + "\n").split("\nafter:\n", 1)
+            text, post = text.strip("\n"), post.strip()
+        if post:
+            ins.append((c + 1, [Tok("raw", "\n" + post + "\n", None, 0, True)]))
         tl = text.split("\n")
         cut = 0
         while cut < len(tl) and not tl[cut].strip().startswith(("invariant", "decreases", "invariant_except_break", "ensures")): cut += 1
@@ -532,6 +595,7 @@ def build_unit(name, canary=None):
                 raise ExtractError("item %s: guard mismatch" % iid)
         frag = splice_closures(frag, ov, info)
         frag = splice_loops(frag, ov, info)
+        frag = splice_hints(frag, ov, info)
         wrap = ex.get("emit_impl", ex.get("impl"))
         item_start = len(g.lines)
         if wrap: g.add(wrap + " {")
@@ -570,12 +634,14 @@ def build_unit(name, canary=None):
         g.items.append(info)
     g.add("} // verus!")
     g.add("fn main() {}")
-    if canary == "loop":
-        _loop_canaries(g)
+    if canary and canary.startswith("loop"):
+        _loop_canaries(g, int(canary[4:] or 0))
     return g
 
-def _loop_canaries(g):
-    """insert `assert(false)` after the opening brace of every loop body inside extracted bodies"""
+def _loop_canaries(g, only=0):
+    """insert `assert(false)` after the opening brace of the `only`-th loop body of every extracted body; g.loop_total = the largest number
+    of loops in one body. One build per ordinal: a canary in one loop body makes what follows its `break` (and nested loops) unreachable."""
+    g.loop_total = 0
     for iid, (a, b) in g.body_ranges.items():
         text = "\n".join(g.lines[a:b + 1])
         toks = tokenize(text)
@@ -583,7 +649,9 @@ def _loop_canaries(g):
         m = match_table(toks)
         ls = R.loops_in(toks, m, 0, len(toks))
         # token line numbers are relative to the body text
+        g.loop_total = max(g.loop_total, len(ls))
         for n, (kw, o, c) in enumerate(ls):
+            if n != only: continue
             ln = a + toks[o].line - 1
             col = toks[o].col
             s = g.lines[ln]
